@@ -336,6 +336,19 @@ def h2(rep, src, gkv):
     except Undecided as u:
         rep.undecidable("H2", "get_key_value@body", "body is not a single expression: %s" % u, gkv.where())
         return None, None
+    if t["k"] == "if" and t["cond"]["k"] == "letcond" and t.get("else") is not None and t["cond"]["pat"]["k"] == "tuplestruct" and t["cond"]["pat"]["path"]["segs"][-1] == "Some" and len(t["cond"]["pat"]["elems"]) == 1:
+        # `if let Some(p) = <exact> { Some(x) } else { <fallback> }` is `<exact>.map(|p| x).or_else(|| <fallback>)`
+        try:
+            th = tail_expr(t["then"])
+        except Undecided:
+            th = None
+        if th is not None and th["k"] == "call" and path_of(th["f"]) == "Some" and len(th["args"]) == 1:
+            l = t.get("l", 0)
+            t = {
+                "k": "mcall", "l": l, "m": "or_else",
+                "recv": {"k": "mcall", "l": l, "m": "map", "recv": t["cond"]["e"], "args": [{"k": "closure", "l": l, "params": [t["cond"]["pat"]["elems"][0]], "body": th["args"][0]}]},
+                "args": [{"k": "closure", "l": l, "params": [], "body": t["else"]}],
+            }
     root, chain = root_and_chain(t)
     names = [c["m"] for c in chain]
     rep.instance("H2", "get_key_value@chain", {"root": show(root), "chain": names})
@@ -378,12 +391,20 @@ def h2(rep, src, gkv):
         rep.instance("H2", "get_key_value@predicate", {"predicate": pred})
         if pred != "is_suffix_of":
             rep.violation("H2", "get_key_value@predicate", "candidates are selected with `%s`, not with is_suffix_of" % pred, "src/%s:%d" % (HF, fold["l"]))
+    # a private method of Hierarchy that only get_key_value calls is part of it (`self.unique_with_suffix(path)`: read through above)
+    part_of_gkv = {"get_key_value"}
+    for h in src.fns:
+        if h.file == HF and not h.test and h.body and (h.self_ty or "").startswith("Hierarchy<") and (h.node.get("vis") or "") == "" and h.name != "get_key_value":
+            callers = {g.name for g in src.fns if g.file == HF and not g.test and g.body and g is not h and any(m["m"] == h.name and path_of(m["recv"]) == "self" for m in find(g.body, "mcall"))}
+            other = [g for g in src.fns if g.file != HF and g.body and any(m["m"] == h.name for m in find(g.body, "mcall"))]
+            if callers == {"get_key_value"} and not other:
+                part_of_gkv.add(h.name)
     for f in src.fns:
         if f.test or not f.body:
             continue
         for c in find(f.body, "call"):
             if is_call_to(c, "is_suffix_of"):
-                inside = f.file == HF and f.name == "get_key_value"
+                inside = f.file == HF and f.name in part_of_gkv
                 rep.instance("H2", "is_suffix_of@" + f.qual, None)
                 if not inside:
                     rep.violation("H2", "is_suffix_of@" + f.qual, "a second suffix lookup outside Hierarchy::get_key_value (not covered by the Found table)", "src/%s:%d" % (f.file, c["l"]))
@@ -444,7 +465,9 @@ def h3(rep, src):
         floor=4,
         necessary="walking one path from the front compares unrelated components; `any` accepts a candidate that agrees on one component only: a wrong entry becomes the unique match",
     )
-    f = src.one_fn(name="is_suffix_of", file=HF)
+    from .canon import canon_view as _cv3
+
+    f = _cv3(src.one_fn(name="is_suffix_of", file=HF), src, helpers=False)  # named locals (`let reversed_suffix = left.iter().rev();`) are read through
     ps = [p["pat"]["name"] for p in f.params]
     where = f.where()
     try:
@@ -594,6 +617,25 @@ def h5(rep, src):
                     if r["m"] == "filter" and r["args"] and r["args"][0]["k"] == "closure":
                         conds.append(r["args"][0]["body"])
                     r = r["recv"]
+        # skip guards: `if target.is_some() { continue; }` before the assignment is the condition `target.is_none()` on it
+        for b in find(f.body, "block"):
+            idx = [i for i, s_ in enumerate(b["stmts"]) if any(x is n for x in walk(s_))]
+            if not idx:
+                continue
+            for s_ in b["stmts"][: idx[0]]:
+                e_ = s_.get("e") if s_["k"] == "expr" else None
+                if not (isinstance(e_, dict) and e_.get("k") == "if" and e_.get("else") is None and e_["cond"]["k"] != "letcond"):
+                    continue
+                tb_ = e_["then"]
+                if not (tb_["k"] == "block" and len(tb_["stmts"]) == 1 and tb_["stmts"][0]["k"] == "expr" and tb_["stmts"][0]["e"]["k"] in ("continue", "return", "break")):
+                    continue
+                c_ = e_["cond"]
+                if c_["k"] == "unary" and c_["op"].strip() == "!":
+                    conds.append(c_["e"])
+                elif c_["k"] == "mcall" and c_["m"] in ("is_some", "is_none") and not c_["args"]:
+                    conds.append(dict(c_, m="is_none" if c_["m"] == "is_some" else "is_some"))
+                elif c_["k"] == "binary" and c_["op"].strip() in ("==", "!="):
+                    conds.append(dict(c_, op="!=" if c_["op"].strip() == "==" else "=="))
         atoms = []
         for c in conds:
             st = [c]
@@ -729,32 +771,71 @@ def h7(rep, src):
                 rep.undecidable("H7", "try_from_table_factor@other", "a further arm builds column paths: %s" % show(a["pat"], 60), where)
             continue
         key = "try_from_table_factor@" + kind
-        # the (path, identifier) pairs collected into the column hierarchy: tuples whose first component chains a qualifier with once(<column>)
+        # the (path, identifier) pairs collected into the column hierarchy: tuples whose first component is <a sequence> followed by ONE element -
+        # `q.into_iter().chain(once(c)).collect()`, or a local `let mut p = q.clone(); p.push(c); (p, ..)`
+        def parts(e, scope):
+            e, _m = strip_copy(e)
+            if e["k"] == "mcall" and e["m"] == "chain" and len(e["args"]) == 1:
+                return parts(e["recv"], scope) + parts(e["args"][0], scope)
+            if e["k"] == "call" and (path_of(e["f"]) or "").split("::")[-1] == "once" and len(e["args"]) == 1:
+                return [("elem", e["args"][0])]
+            if (e["k"] == "array" and len(e["elems"]) == 1) or (e["k"] == "macro" and e.get("name") == "vec" and len(e.get("args") or []) == 1):
+                return [("elem", (e["elems"] if e["k"] == "array" else e["args"])[0])]
+            if e["k"] == "path" and len(e["segs"]) == 1 and scope is not None:
+                nm = e["segs"][0]
+                lets = [st for st in scope["stmts"] if st["k"] == "let" and st["pat"].get("k") == "ident" and st["pat"]["name"] == nm and st.get("init") is not None]
+                if len(lets) == 1:
+                    out = parts(lets[0]["init"], None)
+                    for st in scope["stmts"]:
+                        x = st.get("e") if st["k"] == "expr" else None
+                        if isinstance(x, dict) and x["k"] == "mcall" and path_of(x["recv"]) == nm:
+                            if x["m"] == "push" and len(x["args"]) == 1:
+                                out = out + [("elem", x["args"][0])]
+                            elif x["m"] in ("extend", "append", "insert", "truncate", "pop", "remove", "clear", "retain", "drain"):
+                                out = out + [("other", x)]
+                    return out
+            return [("seq", e)]
+
         pairs = []
-        for t in find(a["body"], "tuple"):
-            if len(t["elems"]) != 2:
-                continue
-            ch = [m for m in walk(t["elems"][0]) if m["k"] == "mcall" and m["m"] == "chain"]
-            if ch and any(is_call_to(c, "once") for c in find(ch[0]["args"][0], "call")):
-                pairs.append((t, ch[0]))
+        for blk in [b for b in find(a["body"], "block")] + [None]:
+            tuples = [t for t in (find(blk, "tuple") if blk is not None else find(a["body"], "tuple")) if len(t["elems"]) == 2]
+            for t in tuples:
+                if blk is not None and not any(st.get("e") is t for st in blk["stmts"] if st["k"] == "expr"):
+                    continue  # only the tuple that is the value of this block is read in its scope
+                ps = parts(t["elems"][0], blk)
+                if [k for k, _ in ps] == ["seq", "elem"] and not any(t is p[0] for p in pairs):
+                    pairs.append((t, ps))
         if len(pairs) != 1:
             rep.undecidable("H7", key + "@key", "cannot find the (qualifier ++ [column], identifier) pair of the column hierarchy (%d candidates)" % len(pairs), where)
             continue
-        t, ch = pairs[0]
-        outer, m_out = strip_copy(t["elems"][0])
-        q, m_in = strip_copy(ch["recv"])
-        bad = [m for m in m_out + m_in if m not in QUAL_OK]
+        t, ps = pairs[0]
         rep.instance("H7", key + "@key", {"path": show(t["elems"][0], 140)})
-        if outer is not ch or bad:
-            rep.violation("H7", key + "@key", "the column path is not <qualifier> ++ [column] built with copying combinators only: %s" % show(t["elems"][0], 120), where)
-        ok_q = q["k"] == "mcall" and q["m"] == "unwrap_or" and len(q["args"]) == 1
-        dflt = show(q["args"][0], 0).replace(" ", "") if ok_q else None
-        alias_part = show(q["recv"], 0).replace(" ", "") if ok_q else None
+        q, _m = strip_copy(ps[0][1])
+        # the qualifier: the alias name when there is one, else the default - unwrap_or / map_or / match / if-let over the optional alias
+        alias_part = dflt = None
+        if q["k"] == "mcall" and q["m"] == "unwrap_or" and len(q["args"]) == 1:
+            alias_part, dflt = show(q["recv"], 0).replace(" ", ""), show(q["args"][0], 0).replace(" ", "")
+        elif q["k"] == "mcall" and q["m"] == "map_or" and len(q["args"]) == 2 and q["args"][1]["k"] == "closure":
+            alias_part, dflt = show(q["recv"], 0).replace(" ", "") + ".map(" + show(q["args"][1], 0).replace(" ", "") + ")", show(q["args"][0], 0).replace(" ", "")
+        elif q["k"] == "match" or (q["k"] == "if" and q["cond"]["k"] == "letcond" and q.get("else") is not None):
+            if q["k"] == "match":
+                scrut, arms = q["e"], [(x["pat"], x["body"]) for x in q["arms"] if not x.get("guard")]
+            else:
+                scrut, arms = q["cond"]["e"], [(q["cond"]["pat"], q["then"]), ({"k": "wild"}, q["else"])]
+            some = [(p_, b_) for p_, b_ in arms if p_["k"] == "tuplestruct" and p_["path"]["segs"][-1] == "Some" and len(p_["elems"]) == 1 and p_["elems"][0]["k"] == "ident"]
+            none = [(p_, b_) for p_, b_ in arms if p_["k"] == "wild" or (p_["k"] in ("path", "ident") and (p_.get("segs") or [p_.get("name")])[-1] == "None")]
+            if len(arms) == 2 and len(some) == 1 and len(none) == 1:
+                unblock = lambda x: x["stmts"][0]["e"] if x["k"] == "block" and len(x["stmts"]) == 1 and x["stmts"][0]["k"] == "expr" else x
+                sb = show(unblock(some[0][1]), 0).replace(" ", "")
+                bound = some[0][0]["elems"][0]["name"]
+                alias_part = show(scrut, 0).replace(" ", "") + ".map(|%s|%s)" % (bound, sb) if re.match(r"^%s\.name\b" % re.escape(bound), sb) else show(scrut, 0).replace(" ", "") + ":" + sb
+                dflt = show(unblock(none[0][1]), 0).replace(" ", "")
+        ok_q = alias_part is not None
         want = ("name.cloned()", "name.clone()") if kind == "Table" else ("relation.name().cloned()", "relation.name().into()", "relation.name().to_string().into()")
         rep.instance("H7", key + "@qualifier", {"alias": alias_part, "default": dflt})
         if not ok_q or dflt not in want:
             rep.violation("H7", key + "@qualifier", "the qualifier of an un-aliased %s item is `%s`, not the whole name (%s)" % (kind, dflt or show(q, 80), want[0]), where)
-        if ok_q and not (alias_part.startswith("alias") and re.search(r"\.name\b", alias_part)):
+        if ok_q and not (alias_part.lstrip("&").startswith("alias") and re.search(r"\.name\b", alias_part)):
             rep.violation("H7", key + "@alias", "the aliased qualifier is not the alias name: %s" % alias_part, where)
 
 
@@ -813,8 +894,14 @@ def h9(rep, src):
             continue
         f = fs[0]
         pn = [p["pat"]["name"] for p in f.params if not p.get("self") and p["pat"]["k"] == "ident"]
-        all_gets = [m for m in walk(f.body) if m["k"] == "mcall" and m["m"] in ("get", "get_key_value", "and_then", "filter", "get_mut") and show(m["recv"], 0).replace(" ", "") == "self.0"]
-        top_gets = [m for m in walk(f.body, into_closures=False) if m["k"] == "mcall" and m["m"] == "get" and show(m["recv"], 0).replace(" ", "") == "self.0"]
+        # the column map is `self.0`, or the local it is destructured into (`let TryIntoExprVisitor(columns) = self;`)
+        roots = {"self.0"} | {
+            st["pat"]["elems"][0]["name"]
+            for st in find(f.body, "let")
+            if st["pat"]["k"] == "tuplestruct" and len(st["pat"]["elems"]) == 1 and st["pat"]["elems"][0]["k"] == "ident" and st.get("init") is not None and show(st["init"], 0).replace(" ", "").lstrip("&*") == "self"
+        }
+        all_gets = [m for m in walk(f.body) if m["k"] == "mcall" and m["m"] in ("get", "get_key_value", "and_then", "filter", "get_mut") and show(m["recv"], 0).replace(" ", "") in roots]
+        top_gets = [m for m in walk(f.body, into_closures=False) if m["k"] == "mcall" and m["m"] == "get" and show(m["recv"], 0).replace(" ", "") in roots]
         loops = [n for n in walk(f.body) if n["k"] in ("for", "while", "loop")]
         arg = None
         if len(top_gets) == 1 and top_gets[0]["args"]:
@@ -944,7 +1031,9 @@ def h11(rep, src):
         raise Anchor("sql/visitor.rs: expected one tables_with_aliases, found %d" % len(fs))
     from .canon import helpers_of
 
-    f = fs[0]
+    from .canon import canon_view
+
+    f = canon_view(fs[0], src, multi_use=True)  # `let twj = self.0; .. twj.relation .. twj.joins` and a private helper `table_with_alias(&x.relation)` are read through
 
     def norm(e):
         while e["k"] in ("ref", "paren") or (e["k"] == "unary" and e["op"].strip() in ("&", "*")):
@@ -985,6 +1074,26 @@ def h11(rep, src):
     own = [b for vs, body, _l in scopes for b in relation_bases(body) if b in vs]
     again = [b for vs, body, _l in scopes for b in relation_bases(body) if b.startswith("self.")]
     rep.instance("H11", "tables_with_aliases@joins", {"iterations": len(scopes), "reads_of_the_join": own, "reads_of_the_first_table": again})
+    # both places take a table factor apart: a named table (TableFactor::Table) and a sub-query (TableFactor::Derived) each give an entry, in the FROM position as in a JOIN
+    for m in find(f.body, "match"):
+        sc = norm(m["e"])
+        if not (sc["k"] == "field" and sc.get("name") == "relation"):
+            continue
+        where_ = "joins" if id(m) in inside_ids else "first"
+        listed = set()
+        for a in m["arms"]:
+            for pt in (a["pat"]["cases"] if a["pat"]["k"] == "or" else [a["pat"]]):
+                if pt["k"] in ("struct", "tuplestruct") and "TableFactor" in pt["path"]["segs"]:
+                    b = a["body"]
+                    while b["k"] == "block" and len(b["stmts"]) == 1 and b["stmts"][0]["k"] == "expr":
+                        b = b["stmts"][0]["e"]
+                    if path_of(b) != "None":
+                        listed.add(pt["path"]["segs"][-1])
+        key = "tables_with_aliases@%s:variants" % where_
+        rep.instance("H11", key, {"position": where_, "table_factors_listed": sorted(listed)})
+        for v in ("Table", "Derived"):
+            if v not in listed:
+                rep.violation("H11", "%s:%s" % (key, v), "in the %s position a TableFactor::%s gives no entry: %s there are never collected" % ("JOIN" if where_ == "joins" else "FROM", v, "table / CTE names" if v == "Table" else "sub-queries"), "src/sql/visitor.rs:%d" % m["l"])
     if again or not own:
         rep.violation(
             "H11",
@@ -1004,7 +1113,7 @@ def run(rep):
     src = Src(facts.src_facts())
     from .canon import canon_view
 
-    gkv = canon_view(src.one_fn(name="get_key_value", file=HF, self_ty_re=r"^Hierarchy<"), src, helpers=False)  # named locals (`let found = ..fold(..)`) read through
+    gkv = canon_view(src.one_fn(name="get_key_value", file=HF, self_ty_re=r"^Hierarchy<"), src, keep={"is_suffix_of", "is_prefix_of"})  # named locals (`let found = ..fold(..)`) and private helpers (`self.unique_with_suffix(path)`) read through
     gkv = loop_form_as_fold(gkv)
     fold, pred = h2(rep, src, gkv)
     if fold is None:
